@@ -65,6 +65,15 @@ CLAIMED["C10"] = ("static effect analysis of stage closures (ambient reads - dir
   "Assumes package variables written only by main/cmd start-up code are constant during evaluation. Does not decide value equivalence of a call with its substituted body nor the funcs-file lexical layer.",
   "DESIGN.md §3 C10")
 
+CLAIMED["C12"] = ("static: folding-unit agreement rule (type-resolved comparisons in the ignore-case search vs the function that folds pattern literals), index-then-advance dependence rule on the scan position, agreement of the skip predicates between compiler and matcher, E-PANIC obligations of the package, IntPool no-recycle shape",
+  "Decides three structural necessary conditions of 'dissect equals its specification; ignore-case only adds matches': pattern and line are folded by the same byte-wise unit, the scan resumes exactly after the delimiter that was found, index pairs are written for exactly the tokens that were counted, all offsets/slices in range, earlier results never recycled.",
+  "Trusts strings.Index (first occurrence). Does not decide equality with the specification on all inputs.",
+  "DESIGN.md §3 C12")
+CLAIMED["C17"] = ("static: separator-discipline rule (guard of every conditional separator write classified: position vs loop start, flag set after each element, non-empty elements), join-loop shape rule, index-then-advance rule on the splitter, pooled sub-context typestate and per-evaluation acquisition, wiring rules of subContext, negative-index normalisation shape, loop/bounds obligations of the array helpers",
+  "Decides that result lists are well formed by construction (no separator that does not delimit an element), that the splitter resumes after the whole delimiter, that {0}/{1}/named keys are wired as documented with a context bound per evaluation, that negative indexes are normalised against the list being split, and that the generator loops are bounded.",
+  "Trusts strings.Index/Count. Does not decide split/join inverse law nor the generated sequences.",
+  "DESIGN.md §3 C17")
+
 PENDING_REASON = "static check for this property is designed in DESIGN.md §3 but not yet built in this revision of /verif; not claimed until it runs"
 
 def main():
